@@ -8,7 +8,7 @@ import (
 )
 
 const (
-	Empty = 0
+	Empty            = 0
 	P, N, B, R, Q, K = 1, 2, 3, 4, 5, 6 // white positive, black negative
 )
 
